@@ -56,6 +56,52 @@ CHECKS = {
         "Renderer inserts separators only between tokens; trailing zeros of decimals are significant; committed generated parser = grammar.",
         "DESIGN.md 4 C16",
     ),
+    "C02": (
+        "translation_validation",
+        "Hypothesis SSB routine-set generator (compiled programs, re-layouts, free flow graphs); decompiled text read by the reference semantics; exact all-paths equivalence with the machine model of the input",
+        "For each generated well-formed routine set the decompiled text must compile, and - read by the reference "
+        "semantics S through an independent parser front end, not by the compiler - denote exactly the input's flow graph "
+        "(all paths, parameters, routine tables); compile(decompile(x)) is compared with x as the derived claim. The input "
+        "space is sampled; every sample is decided exactly.",
+        "Trusts S / M (vf/model.py), the generated ANTLR parser and the reference literal reader; inputs that raise, take "
+        "the fallback or exceed the step budget are C06's; five known findings (known_findings.json) are excluded by narrow predicates.",
+        "DESIGN.md 4 C02",
+    ),
+    "C04": (
+        "exploration",
+        "Hypothesis value / literal generators; print->parse round trip through the real decompilers and compilers; reference literal reader as oracle for spellings",
+        "Tens of thousands of generated parameter values per run printed in every context (op argument, menu case header, "
+        "message-switch text, flag assignment; ExplorerScript and SsbScript decompilers; indentation 0-4) and compiled "
+        "back, compared by value; and generated literal spellings compared with a reference reader written from the "
+        "specification's Data Types section.",
+        "Control characters / tabs-as-indentation are not generated; identifier-like position-mark names; one known finding (strings without an exact literal) excluded by the predicate vf.checks.c04.unspellable.",
+        "DESIGN.md 4 C04",
+    ),
+    "C06": (
+        "exploration",
+        "Hypothesis SSB routine-set generator weighted to free flow graphs; totality under a deterministic step budget + exact fallback round trip",
+        "convert() must return (str, SourceMap) for every generated well-formed routine set without raising and within a "
+        "deterministic budget of 5e6 function entries; unparsable output must carry the marker line; marked output must "
+        "compile back to the input op for op.",
+        "Termination is observed up to the step budget only; well-formedness as in DESIGN.md Appendix B.",
+        "DESIGN.md 4 C06",
+    ),
+    "C07": (
+        "exploration",
+        "Hypothesis SSB routine-set generator (arbitrary opcode names, all parameter kinds, empty routines, cross-routine jumps); SsbScript decompile->compile round trip",
+        "SsbScriptSsbCompiler(SsbScriptSsbDecompiler(x)) must equal x up to renumbering for thousands of generated routine sets per run.",
+        "Strings stay within what has an exact literal (C04's known finding); identifiers are never reserved words.",
+        "DESIGN.md 4 C07",
+    ),
+    "C13": (
+        "exploration",
+        "Hypothesis generator of exactly the flat structured program class; decompile(compile(P)) inspected through the parser for jump statements, fallback and operation counts",
+        "Generated flat programs are compiled, renumbered and decompiled; the text must be unmarked ExplorerScript, contain "
+        "no jump statement and print every operation exactly once. On the current tree the jump-freedom half fails for every "
+        "program with an if or switch (known finding F-C13-1, not safely repairable); the other halves and block-free programs are fully checked.",
+        "Operation names unique by construction; menu case headers only under message_SwitchMenu-style headers.",
+        "DESIGN.md 4 C13",
+    ),
 }
 
 NOT_YET = {}
